@@ -240,17 +240,6 @@ func c17Run(t *testing.T, r *verifsim.Run) {
 					when, s.idx, s.enteredAtCancel, got)
 				return false
 			}
-			if got != want && s.backoff && s.burstSeen {
-				// Overlapping Tick calls on the unsynchronised backoff counters
-				// really lost/duplicated an update (Go scheduler, not the tape,
-				// decided it): a true deviation, but one that cannot be replayed
-				// from the decision list, so by the kernel's rules it cannot be a
-				// violation. It is counted; the replayable report of the same
-				// defect is the race-detector class of the -race pass.
-				r.Probe("backoff-lost-update-observed-nonreplayable")
-				r.Inconclusive("backoff-count-mismatch-after-overlapping-ticks")
-				return false
-			}
 			if got != want {
 				kind := "standard"
 				if s.backoff {
